@@ -75,15 +75,25 @@ func (tm *typesMap) TypeString(typ types.Type) string {
 }
 
 func (tm *typesMap) FieldStrings(fields []*types.Var) ([]string, error) {
-	strct := types.NewStruct(fields, nil)
-	strctStr, err := format.Source([]byte("var a " + tm.TypeString(strct)))
+	// One field per line: gofmt keeps a struct type that is written on one line on one line, and
+	// then there are no field lines to return.
+	src := bytes.NewBufferString("var a struct {\n")
+	for _, f := range fields {
+		if f.Embedded() {
+			src.WriteString(tm.TypeString(f.Type()) + "\n")
+		} else {
+			src.WriteString(f.Name() + " " + tm.TypeString(f.Type()) + "\n")
+		}
+	}
+	src.WriteString("}\n")
+	strctStr, err := format.Source(src.Bytes())
 	if err != nil {
 		return nil, err
 	}
-	strctLines := bytes.Split(strctStr, []byte{'\n'})
-	ss := make([]string, len(strctLines)-2)
-	for i := range strctLines[1 : len(strctLines)-1] {
-		ss[i] = string(bytes.TrimSpace(strctLines[i+1]))
+	strctLines := bytes.Split(bytes.TrimSpace(strctStr), []byte{'\n'})
+	ss := make([]string, 0, len(fields))
+	for _, line := range strctLines[1 : len(strctLines)-1] {
+		ss = append(ss, string(bytes.TrimSpace(line)))
 	}
 	return ss, nil
 }
